@@ -182,7 +182,9 @@ class Processor(ABC):
             materialization.
         """
         if original.payload is not None:
-            return original, True
+            # Only a materialization's payload is known to be suitable for
+            # caching; a transfer processed earlier may hold a lazy one.
+            return original, isinstance(original, Materialization)
         result: Relation
         payload: Any = None
         match original:
